@@ -3,7 +3,7 @@
 import sys, subprocess
 unit, patch = sys.argv[1:3]
 M = '/var/tmp/nervus-verif/mutp'
-subprocess.run(['rsync', '-a', '--delete', '--exclude', 'target', '--exclude', '.git', '/repo/', M + '/'], check=True)
+subprocess.run(['rsync', '-a', '--delete', '--exclude', 'target', '--exclude', '.git', (__import__('os').environ.get('MUT_BASE', '/repo').rstrip('/') + '/'), M + '/'], check=True)
 subprocess.run(['patch', '-p1', '-s', '-d', M, '-i', patch], check=True)
 r = subprocess.run(['python3', '/verif/lib/verus_route.py', unit, M], capture_output=True, text=True)
 for ln in r.stdout.split('\n'):
